@@ -11,9 +11,12 @@ from ..kernel import Property, RunResult, Violation, stable_hash
 from ..models.multikey import MultiKeyModel, StrategyModel
 from .util import drop_candidates
 
-KEYS = [0, 1, 2, 3, 4, "a", "b", "c", "d", "e", 1.0, True] + \
+KEYS = [0, 1, 2, 3, 4, "a", "b", "c", "d", "e", 1.0, True,
+        # single keys that are hashable AND iterable (one key each, never a
+        # collection of keys), None, and a string longer than one letter
+        frozenset((1, 2)), b"ab", range(3), None, "ab"] + \
   list(range(5, 25))            # the tail is used by "wide" runs only
-NKEYS_NORMAL = 12
+NKEYS_NORMAL = 17
 VALS = [0, 1, 2, 3, "x", "y", 1.0, True, (1, 2), (1, 2.0), None, "x"]
 NAMES = ["a", "b", "c", "d", "e", "f_g", "h", "pop", "copy", "_inc", "__x"]
 # "pop" / "copy" collide with dict methods: the instance attribute must still
